@@ -35,7 +35,7 @@ def cmdSize (toks : Toks) : Option String :=
       some (shSide (orderTargetValue ⟨pB k, pI lot⟩ (pF target) (pF mv) (pF price) (pF cash) (pI closable) (pI posQty) cost))
   | ["SZFUT", q, target, lq, lo, sq, so] => some (shLegs (futOrderRequests (pI q) (pB target) (pI lq) (pI lo) (pI sq) (pI so)))
   | ["SZFSUB", amount, isBuy, eff, posQty, oldQty, tc] =>
-      some (shLegs (futSubmitLegs (pI amount) (pB isBuy) (parseEffect eff) (pI posQty) (pI oldQty) (pI tc)))
+      some (shLegs (futSubmit (pF amount) (pB isBuy) (parseEffect eff) (pI posQty) (pI oldQty) (pI tc)))
   | ["DECQ", a, b] => some (toString (R.decQuot10 (pF a) (pF b)))
   | _ => none
 
